@@ -390,9 +390,14 @@ pub fn run(ctx: &Ctx, replay: Option<&J>, idem: bool) -> i32 {
         progs.push(Prog { src: text.clone(), class: format!("corpus:{}", name) });
     }
     for s in sequences() {
+        // (also with Windows line endings: the grammar admits "\r\n" wherever it admits "\n")
+        progs.push(Prog { src: s.replace('\n', "\r\n"), class: "sequence".into() });
         progs.push(Prog { src: s, class: "sequence".into() });
     }
-    for s in crate::c09::commented_programs(thorough) {
+    for (i, s) in crate::c09::commented_programs(thorough).into_iter().enumerate() {
+        if i % 3 == 0 {
+            progs.push(Prog { src: s.replace('\n', "\r\n"), class: "commented-template".into() });
+        }
         progs.push(Prog { src: s, class: "commented-template".into() });
     }
     // dedup by source
